@@ -10,6 +10,7 @@
 //	VERIF_VIOL_OUT   file a failing case (replay) is written to
 //	VERIF_REPLAY     file or directory of stored cases to re-judge (replay mode)
 //	VERIF_FINDINGS   path of known_findings.json
+//	VERIF_CUR        file the case about to be executed is noted in (crash attribution)
 package vkit
 
 import (
@@ -338,6 +339,22 @@ func SaveViolation(prop, test string, c interface{}, vs []Violation, transcript 
 	_ = os.MkdirAll(filepath.Dir(out), 0755)
 	_ = ioutil.WriteFile(out, data, 0644)
 	return out
+}
+
+// Begin notes the case that is about to be executed (VERIF_CUR).  When code under test
+// panics in a goroutine of its own the test process dies before any oracle can speak; the
+// driver then turns the noted case into the replay file of a crash violation.
+func Begin(prop, test string, c interface{}) {
+	out := os.Getenv("VERIF_CUR")
+	if out == "" {
+		return
+	}
+	cb, err := json.Marshal(c)
+	if err != nil {
+		return
+	}
+	data, _ := json.Marshal(Replay{Property: prop, Test: test, Case: cb})
+	_ = ioutil.WriteFile(out, data, 0644)
 }
 
 // LoadReplays returns the stored cases of VERIF_REPLAY (file or directory) that
